@@ -18,6 +18,7 @@
 -/
 import Golib.Wire.CounterCodec
 import Golib.Wire.EventAttrs
+import Golib.Wire.Collector
 import Golib.Value.Facts
 
 namespace C05
@@ -136,17 +137,21 @@ theorem taghash_stored (stored : Int) (tags : List (Bytes × Value)) (h : stored
 
 /-! ### decodability: the reference decoder inverts the reference encoder, for each of the eight bodies
 
-  `V` is the class of tagged values that round-trips (instantiated with C02's theorem below).
+  Tagged values inside map fields are C02's well-formed values: `Value.WFV`, with C02's round trip
+  `Value.decode_encV` (no assumption about the value codec is left in these statements).
   `(c.wf x)` says every field of `x` holds a value the field can carry (ranges, counts, lengths). -/
 
-theorem decodable_tagcount (V : VOK) (p : TagCount) (r : Bytes) (wf : (tagCountC V.wf).wf p.norm) :
-    (tagCountC V.wf).dec (encTagCount p ++ r) = some (p.norm, r) := by
-  have := tagCountC_RT V p.norm r wf
+/-- the well-formed tagged values of C02 round-trip (C02's theorem) -/
+def valuesOK : VOK := ⟨Value.WFV, Value.decode_encV⟩
+
+theorem decodable_tagcount (p : TagCount) (r : Bytes) (wf : (tagCountC Value.WFV).wf p.norm) :
+    (tagCountC Value.WFV).dec (encTagCount p ++ r) = some (p.norm, r) := by
+  have := tagCountC_RT valuesOK p.norm r wf
   rwa [tagCountC_enc] at this
 
-theorem decodable_logsink (V : VOK) (p : LogSink) (r : Bytes) (wf : (logSinkC V.wf).wf p.norm) :
-    (logSinkC V.wf).dec (encLogSink p ++ r) = some (p.norm, r) := by
-  have := logSinkC_RT V p.norm r wf
+theorem decodable_logsink (p : LogSink) (r : Bytes) (wf : (logSinkC Value.WFV).wf p.norm) :
+    (logSinkC Value.WFV).dec (encLogSink p ++ r) = some (p.norm, r) := by
+  have := logSinkC_RT valuesOK p.norm r wf
   rwa [logSinkC_enc] at this
 
 theorem decodable_text (p : TextP) (r : Bytes) (wf : textC.wf p) :
@@ -154,9 +159,9 @@ theorem decodable_text (p : TextP) (r : Bytes) (wf : textC.wf p) :
   have := textC_RT p r wf
   rwa [textC_enc] at this
 
-theorem decodable_param (V : VOK) (p : Param) (r : Bytes) (wf : (paramC V.wf).wf p) :
-    (paramC V.wf).dec (encParam p ++ r) = some (p, r) := by
-  have := paramC_RT V p r wf
+theorem decodable_param (p : Param) (r : Bytes) (wf : (paramC Value.WFV).wf p) :
+    (paramC Value.WFV).dec (encParam p ++ r) = some (p, r) := by
+  have := paramC_RT valuesOK p r wf
   rwa [paramC_enc] at this
 
 /-- the event travels with uuid, escalation, status and object type folded into its attributes -/
@@ -175,9 +180,9 @@ theorem decodable_hitmap (p : HitMap) (r : Bytes) (wf : hitMapC.wf p) :
   have := hitMapC_RT p r wf
   rwa [hitMapC_enc] at this
 
-theorem decodable_counter (V : VOK) (p : Counter) (r : Bytes) (wf : (counterC V.wf).wf p) :
-    (counterC V.wf).dec (encCounter p ++ r) = some (p, r) := by
-  have := counterC_RT V p r wf
+theorem decodable_counter (p : Counter) (r : Bytes) (wf : (counterC Value.WFV).wf p) :
+    (counterC Value.WFV).dec (encCounter p ++ r) = some (p, r) := by
+  have := counterC_RT valuesOK p r wf
   rwa [counterC_enc] at this
 
 /-- status and object type travel as decimal text, which parses back to the number -/
@@ -201,10 +206,10 @@ theorem event_fields_recoverable (e : Event) (r : Bytes) (wf : eventWireC.wf e.t
 
 /-- the encoding of each body is injective and prefix-free on well-formed packs (stated for the
     counter pack; `Codec.RT.injective` / `prefix_free` give it for every body) -/
-theorem counter_encoding_injective (V : VOK) (p q : Counter) (wp : (counterC V.wf).wf p) (wq : (counterC V.wf).wf q)
+theorem counter_encoding_injective (p q : Counter) (wp : (counterC Value.WFV).wf p) (wq : (counterC Value.WFV).wf q)
     (e : encCounter p = encCounter q) : p = q := by
-  rw [← counterC_enc V.wf, ← counterC_enc V.wf] at e
-  exact (counterC_RT V).injective p q wp wq e
+  rw [← counterC_enc Value.WFV, ← counterC_enc Value.WFV] at e
+  exact (counterC_RT valuesOK).injective p q wp wq e
 
 /-! what "every field holds a value the field can carry" unfolds to, for the small bodies -/
 
@@ -248,16 +253,116 @@ theorem message_decodable {α : Type} (c : Codec α) (hc : c.RT) (ty : Nat) (x :
   · have := hc x [] wf
     simpa using this
 
-/-! ### instantiation with C02's value round trip, and non-vacuity -/
+/-! ### end to end: "a non-Go collector can decode it", one statement per pack
 
-/-- the well-formed tagged values of C02 round-trip -/
-def valuesOK : VOK := ⟨Value.WFV, Value.decode_encV⟩
+  `collect` (Golib.Wire.Collector) is a whole receiver: parse the frame, read the pack type, dispatch to the
+  reference decoder of that type, require that the payload is consumed exactly.  From the frame the reference
+  encoder emits it recovers the project code, the license hash, the pack type and every field, and leaves
+  whatever follows the frame untouched.  Tagged values are C02's well-formed values (`Value.WFV`,
+  round trip `Value.decode_encV`): no assumption is left about them. -/
 
-theorem decodable_tagcount_wfv (p : TagCount) (r : Bytes) (wf : (tagCountC Value.WFV).wf p.norm) :
-    (tagCountC Value.WFV).dec (encTagCount p ++ r) = some (p.norm, r) := decodable_tagcount valuesOK p r wf
+theorem collector_decodes_tagcount (p : TagCount) (license r : Bytes) (wf : (tagCountC Value.WFV).wf p.norm)
+    (hl : (payload typeTagCount (encTagCount p)).length < 2147483648) :
+    collect (frame p.hdr.pcode license (payload typeTagCount (encTagCount p)) ++ r)
+      = some (⟨p.hdr.pcode, hash64 license, typeTagCount, .tagcount p.norm⟩, r) := by
+  refine collect_frame _ _ _ _ _ _ (by decide) wf.1.1 hl ?_
+  have h := decodable_tagcount p [] wf
+  rw [List.append_nil] at h
+  unfold decodeBody
+  rw [if_pos rfl]
+  show mapDec AnyPack.tagcount ((tagCountC Value.WFV).dec (encTagCount p)) = _
+  rw [h]; rfl
 
-theorem decodable_counter_wfv (p : Counter) (r : Bytes) (wf : (counterC Value.WFV).wf p) :
-    (counterC Value.WFV).dec (encCounter p ++ r) = some (p, r) := decodable_counter valuesOK p r wf
+theorem collector_decodes_logsink (p : LogSink) (license r : Bytes) (wf : (logSinkC Value.WFV).wf p.norm)
+    (hl : (payload typeLogSink (encLogSink p)).length < 2147483648) :
+    collect (frame p.hdr.pcode license (payload typeLogSink (encLogSink p)) ++ r)
+      = some (⟨p.hdr.pcode, hash64 license, typeLogSink, .logsink p.norm⟩, r) := by
+  refine collect_frame _ _ _ _ _ _ (by decide) wf.1.1 hl ?_
+  have h := decodable_logsink p [] wf
+  rw [List.append_nil] at h
+  unfold decodeBody
+  rw [if_neg (by decide), if_pos rfl]
+  show mapDec AnyPack.logsink ((logSinkC Value.WFV).dec (encLogSink p)) = _
+  rw [h]; rfl
+
+theorem collector_decodes_text (p : TextP) (license r : Bytes) (wf : textC.wf p)
+    (hl : (payload typeText (encTextP p)).length < 2147483648) :
+    collect (frame p.hdr.pcode license (payload typeText (encTextP p)) ++ r)
+      = some (⟨p.hdr.pcode, hash64 license, typeText, .text p⟩, r) := by
+  refine collect_frame _ _ _ _ _ _ (by decide) wf.1.1 hl ?_
+  have h := decodable_text p [] wf
+  rw [List.append_nil] at h
+  unfold decodeBody
+  rw [if_neg (by decide), if_neg (by decide), if_pos rfl, h]; rfl
+
+theorem collector_decodes_param (p : Param) (license r : Bytes) (wf : (paramC Value.WFV).wf p)
+    (hl : (payload typeParameter (encParam p)).length < 2147483648) :
+    collect (frame p.hdr.pcode license (payload typeParameter (encParam p)) ++ r)
+      = some (⟨p.hdr.pcode, hash64 license, typeParameter, .param p⟩, r) := by
+  refine collect_frame _ _ _ _ _ _ (by decide) wf.1.1 hl ?_
+  have h := decodable_param p [] wf
+  rw [List.append_nil] at h
+  unfold decodeBody
+  rw [if_neg (by decide), if_neg (by decide), if_neg (by decide), if_pos rfl]
+  show mapDec AnyPack.param ((paramC Value.WFV).dec (encParam p)) = _
+  rw [h]; rfl
+
+/-- the event comes back whole: uuid, escalation, status and object type are recovered from the
+    reserved attributes -/
+theorem collector_decodes_event (e : Event) (license r : Bytes) (wf : eventWireC.wf e.toWire)
+    (hres : ∀ p ∈ e.attr, reserved p.1 = false)
+    (hl : (payload typeEvent (encEvent e)).length < 2147483648) :
+    collect (frame e.hdr.pcode license (payload typeEvent (encEvent e)) ++ r)
+      = some (⟨e.hdr.pcode, hash64 license, typeEvent, .event e⟩, r) := by
+  refine collect_frame _ _ _ _ _ _ (by decide) wf.1.1 hl ?_
+  have h := decodable_event e [] wf
+  rw [List.append_nil] at h
+  unfold decodeBody
+  rw [if_neg (by decide), if_neg (by decide), if_neg (by decide), if_neg (by decide), if_pos rfl, h]
+  simp only [Event.ofWire_toWire e hres]
+
+theorem collector_decodes_zip (p : Zip) (license r : Bytes) (wf : zipC.wf p)
+    (hl : (payload typeZip (encZip p)).length < 2147483648) :
+    collect (frame p.hdr.pcode license (payload typeZip (encZip p)) ++ r)
+      = some (⟨p.hdr.pcode, hash64 license, typeZip, .zip p⟩, r) := by
+  refine collect_frame _ _ _ _ _ _ (by decide) wf.1.1 hl ?_
+  have h := decodable_zip p [] wf
+  rw [List.append_nil] at h
+  unfold decodeBody
+  rw [if_neg (by decide), if_neg (by decide), if_neg (by decide), if_neg (by decide), if_neg (by decide),
+    if_pos rfl, h]; rfl
+
+theorem collector_decodes_hitmap (p : HitMap) (license r : Bytes) (wf : hitMapC.wf p)
+    (hl : (payload typeHitMap1 (encHitMap p)).length < 2147483648) :
+    collect (frame p.hdr.pcode license (payload typeHitMap1 (encHitMap p)) ++ r)
+      = some (⟨p.hdr.pcode, hash64 license, typeHitMap1, .hitmap p⟩, r) := by
+  refine collect_frame _ _ _ _ _ _ (by decide) wf.1.1.1 hl ?_
+  have h := decodable_hitmap p [] wf
+  rw [List.append_nil] at h
+  unfold decodeBody
+  rw [if_neg (by decide), if_neg (by decide), if_neg (by decide), if_neg (by decide), if_neg (by decide),
+    if_neg (by decide), if_pos rfl, h]; rfl
+
+theorem collector_decodes_counter (p : Counter) (license r : Bytes) (wf : (counterC Value.WFV).wf p)
+    (hl : (payload typeCounter1 (encCounter p)).length < 2147483648) :
+    collect (frame p.hdr.pcode license (payload typeCounter1 (encCounter p)) ++ r)
+      = some (⟨p.hdr.pcode, hash64 license, typeCounter1, .counter p⟩, r) := by
+  refine collect_frame _ _ _ _ _ _ (by decide) wf.1.1 hl ?_
+  have h := decodable_counter p [] wf
+  rw [List.append_nil] at h
+  unfold decodeBody
+  rw [if_neg (by decide), if_neg (by decide), if_neg (by decide), if_neg (by decide), if_neg (by decide),
+    if_neg (by decide), if_neg (by decide), if_pos rfl]
+  show mapDec AnyPack.counter ((counterC Value.WFV).dec (encCounter p)) = _
+  rw [h]; rfl
+
+/-- a frame whose pack type is none of the eight is refused, not misread -/
+theorem collector_refuses_unknown_type (body : Bytes) (ty : Nat)
+    (h : ty ∉ [typeTagCount, typeLogSink, typeText, typeParameter, typeEvent, typeZip, typeHitMap1, typeCounter1]) :
+    decodeBody ty body = none := by
+  simp only [List.mem_cons, List.mem_nil_iff, or_false, not_or] at h
+  unfold decodeBody
+  simp [h.1, h.2.1, h.2.2.1, h.2.2.2.1, h.2.2.2.2.1, h.2.2.2.2.2.1, h.2.2.2.2.2.2.1, h.2.2.2.2.2.2.2]
 
 /-- D27 (repaired by proposed/C05/fix-D27.diff): a (project, object) meter entry written WITHOUT the
     active-slice array is not what the layout says — the reference decoder reads the next decimal's
@@ -361,8 +466,16 @@ theorem sampleCounter_wf : (counterC Value.WFV).wf sampleCounter := by
   simp [WFHdr, inRange_8, inRange_4, inRange_2, Value.WFV]
   decide
 
+example : collect (frame 12345 (ascii "abcdefg") (payload typeCounter1 (encCounter sampleCounter)))
+    = some (⟨12345, 3463164852, typeCounter1, .counter sampleCounter⟩, []) := by
+  have := collector_decodes_counter sampleCounter (ascii "abcdefg") [] sampleCounter_wf (by decide +kernel)
+  rw [List.append_nil] at this
+  have h : hash64 (ascii "abcdefg") = 3463164852 := by decide +kernel
+  rw [h] at this
+  exact this
+
 example : (counterC Value.WFV).dec (encCounter sampleCounter) = some (sampleCounter, []) := by
-  have := decodable_counter_wfv sampleCounter [] sampleCounter_wf
+  have := decodable_counter sampleCounter [] sampleCounter_wf
   simpa using this
 
 example : ∀ p ∈ ([(ascii "host", ascii "a")] : List (Bytes × Bytes)), reserved p.1 = false := by decide
